@@ -9,10 +9,10 @@ from concurrent.futures import ThreadPoolExecutor
 ROOT = os.path.dirname(os.path.dirname(os.path.abspath(__file__)))
 CRATE = os.path.join(ROOT, "miri_c20")
 ENV = dict(os.environ, CARGO_NET_OFFLINE="true", CARGO_TARGET_DIR=os.path.join(ROOT, "build", "miri_c20"))
-ROUNDS = 6
+ROUNDS = 9
 
 def miri(seed, build_only=False):
-    env = dict(ENV, MIRIFLAGS=f"-Zmiri-seed={seed} -Zmiri-preemption-rate=0.1 -Zmiri-permissive-provenance")
+    env = dict(ENV, MIRIFLAGS=f"-Zmiri-seed={seed} -Zmiri-preemption-rate=0.1 -Zmiri-permissive-provenance -Zmiri-disable-stacked-borrows")
     p = subprocess.run(["cargo", "+nightly", "miri", "run", "--offline", "-q", "--", str(seed), str(ROUNDS)],
                        cwd=CRATE, env=env, capture_output=True, text=True, timeout=1800)
     out = p.stdout + p.stderr
